@@ -7,7 +7,7 @@ From Coq Require Import ZArith List Bool.
 From stdpp Require Import gmap.
 From VF Require Import Base.Corr Base.SetSum Model.Partition Model.PartitionInv
   Model.Deadline Model.DeadlineInv Proofs.Partition_base Proofs.Partition_lemmas
-  Proofs.Deadline_lemmas Proofs.Deadline_c02b.
+  Proofs.Partition_c04 Proofs.Deadline_lemmas Proofs.Deadline_c02b.
 Import ListNotations.
 Open Scope Z_scope.
 
@@ -34,10 +34,7 @@ Theorem C04_partinv_unfolds : forall qs tbl p,
   p_faulty_power p = spow tbl (faults p) /\ recovering_power p = spow tbl (recoveries p) /\
   QInv qs tbl (faults p) (sectors p ∖ terminated p) (expirations p) /\
   ETInv (terminated p) (early_terminated p).
-Proof.
-  intros qs tbl p H. destruct H. unfold live_sectors in *.
-  do 12 (split; [assumption|]). assumption.
-Qed.
+Proof. exact partinv_unfolds. Qed.
 
 (* a live sector is in exactly one expiration set, as on-time xor early *)
 Theorem C04_live_sector_in_exactly_one_set : forall qs tbl p n,
